@@ -390,13 +390,16 @@ func (v *PacketDslFormattor) VisitMatchFieldDeclaration(ctx *gen.MatchFieldDecla
 			key = pairCtx.DIGITS().GetText()
 		case pairCtx.List() != nil:
 			items := []string{}
-			// digit list
-			for _, num := range pairCtx.List().AllDIGITS() {
-				items = append(items, num.GetText())
-			}
-			// string list
-			for _, num := range pairCtx.List().AllSTRING() {
-				items = append(items, num.GetText())
+			// digits and strings in the order they are written
+			for _, child := range pairCtx.List().GetChildren() {
+				item, ok := child.(antlr.TerminalNode)
+				if !ok {
+					continue
+				}
+				switch item.GetSymbol().GetTokenType() {
+				case gen.PacketDslParserDIGITS, gen.PacketDslParserSTRING:
+					items = append(items, item.GetText())
+				}
 			}
 			key = formatStringList(items, 5)
 		}
